@@ -365,14 +365,24 @@ impl Monitor {
             Instruction::Return(_) => {
                 // the innermost GOSUB body of the current activation, if any
                 let mut i = self.regions.len();
+                let mut crossed_handler = false;
                 while i > 0 {
                     i -= 1;
                     match self.regions[i].kind {
                         RegionKind::Gosub => {
                             self.regions.truncate(i);
+                            if crossed_handler {
+                                // a handler left by RETURN instead of RESUME: it stays
+                                // active, its context stays where it is - by design, so the
+                                // depths of this run say nothing
+                                self.tainted = true;
+                            }
                             break;
                         }
-                        RegionKind::Handler => continue,
+                        RegionKind::Handler => {
+                            crossed_handler = true;
+                            continue;
+                        }
                         _ => break,
                     }
                 }
